@@ -443,7 +443,8 @@ UB = 'contracts.univ_bits'
 FROM_OCTETS = [(UB, 'type.univ::BitString.fromOctetString[internal]')]
 for _p in ('C09', 'C01'):
     PROPS[_p]['contracts'] = PROPS[_p]['contracts'] + FROM_OCTETS
-ANY_GUIDED = [(UN, 'ber.decoder::AnyPayloadDecoder.valueDecoder[guided-by-type,complete]'),
+ANY_GUIDED = [(UN, 'ber.decoder::AnyPayloadDecoder.indefLenValueDecoder[untagged,complete]'),
+              (UN, 'ber.decoder::AnyPayloadDecoder.valueDecoder[guided-by-type,complete]'),
               (UN, 'ber.decoder::AnyPayloadDecoder.valueDecoder[guided-by-tagmap,complete]')]
 for _p in ('C18', 'C13'):
     PROPS[_p]['contracts'] = PROPS[_p]['contracts'] + ANY_GUIDED
